@@ -157,7 +157,7 @@ func c11Run(c *mon.Ctx, idx int) {
 			viol("parse-fault", "parse under a budget panicked or built a malformed tree", dd)
 			return false
 		}
-		if n > 0 && r.steps > n+1 {
+		if n > 0 && n < 1<<63 && r.steps > n+1 {
 			dd := d(n)
 			dd["steps"] = r.steps
 			viol("steps-exceed-budget", "a limited parse executed more than n+1 parser steps", dd)
@@ -235,6 +235,8 @@ func c11Run(c *mon.Ctx, idx int) {
 			budgets = append(budgets, n)
 		}
 	}
+	// budgets beyond 32 bits whose low bits are small
+	budgets = append(budgets, 1<<32+1, 1<<32+n0/2+1, 1<<40+7, 1<<63+12, 1<<64-1, 1<<31+3)
 	if exhaustive {
 		for n := uint64(1); n < 1<<22; n *= 2 {
 			budgets = append(budgets, n)
